@@ -895,9 +895,17 @@ func (fc *FnCtx) doBuiltin(fr *Frame, st *State, instr ssa.Instruction, c *ssa.C
 			case SInt:
 				// map or chan
 				if mt, ok := unalias(c.Args[0].Type()).Underlying().(*types.Map); ok {
-					_ = mt
-					fc.decls.fun("mapLen", []string{SInt, SInt}, SInt)
-					fc.abstract(instr, "len(map) is an uninterpreted non-negative value")
+					// len(map): a non-negative number that is zero exactly when the map has no entry
+					// (cardinality beyond emptiness is not modelled)
+					hasN, _, ks, _ := fc.mapHeaps(st, mt)
+					l := fc.fresh("maplen", SInt)
+					fc.assume(st, tAnd(tLe(intLit(0), l), tLe(l, bigLit(maxLenS))))
+					q := fc.fresh("q_ml", ks)
+					has := tSelect(tSelect(st.heaps[hasN], v), q)
+					guard := rangeFact(q, mt.Key())
+					fc.assume(st, T(SBool, fmt.Sprintf("(= (= %s 0) (forall ((%s %s)) (! (=> %s (not %s)) :pattern (%s))))", l.S, q.S, ks, guard.S, has.S, has.S)))
+					fc.usedModels["len(map): zero iff the map has no entry (no cardinality)"] = true
+					return l
 				}
 				l := fc.fresh("len", SInt)
 				fc.assume(st, tAnd(tLe(intLit(0), l), tLe(l, bigLit(maxLenS))))
